@@ -172,7 +172,11 @@ func c20Doc(t *core.Tape, entries []c20Entry, compact bool) ([]byte, []int) {
 			nl()
 		}
 		for _, n := range e.Names {
-			b.WriteString("<name>" + c20Esc(t, n) + "</name>")
+			if !compact && !strings.Contains(n, "]]>") && t.Draw(16) == 15 {
+				b.WriteString("<name><![CDATA[" + n + "]]></name>")
+			} else {
+				b.WriteString("<name>" + c20Esc(t, n) + "</name>")
+			}
 			nl()
 		}
 		if !compact {
